@@ -13,7 +13,11 @@ selection, isolation, restore, rejection, query/dispatch consistency, independen
 
 History format: ("set"|"enter", thread, manager, selector, local_threadsafe) | ("exit", thread, manager, exceptional)
 manager 0 = tensorly.backend, 1 = tensorly.tenalg; selector ("n", name code) | ("o", k) | ("f", k).
-A group is run in a mode: 0 / 1 = only that manager is driven and observed, 2 = both."""
+A group is run in a mode: 0 / 1 = only that manager is driven and observed, 2 = both, 3 / 4 = concurrent calls under
+settrace schedules, 7 = both managers with contexts driven through the context-manager protocol (a context of one manager
+may be left while a later context of the other is still live), 8 / 9 = histories over the DISPATCH alphabet of
+Model/BackendDispatch.v on tensorly.backend / tensorly.tenalg (every route to a dispatched name, references captured
+before a switch and called by other threads, threads started inside contexts, use_static_dispatch / use_dynamic_dispatch)."""
 import itertools, os, queue, random, sys, threading, time
 from harness import common as C
 
@@ -71,6 +75,17 @@ class Mgr:
             other_kw = "bkx"
         self.code = {v: k for k, v in self.names.items()}
         fn = self.fn
+        # dispatch routes (Model/BackendDispatch.v): names 0.. of the manager, the class, where the route "top" looks
+        if not tenalg:
+            self.dnames = ["context", "trace", "complex64", "int64"]       # function bound in tensorly/__init__, function via
+            self.dfuns, self.dattrs = [0, 1], [2, 3]                        # __getattr__, attribute via __getattr__, attribute bound
+            self.top_obj = tl
+        else:
+            import tensorly.decomposition._cp_power as lib                  # `from tensorly.tenalg import outer` at import
+            self.dnames = ["outer", "inner"]
+            self.dfuns, self.dattrs = [0, 1], []
+            self.top_obj = lib
+        self.cls = type(self.mgr)
 
         def marker(self_, *a, **k):
             return ("c17", self_)
@@ -82,6 +97,10 @@ class Mgr:
                 log.append((self_, name))
             return object.__getattribute__(self_, name)
         body = {fn: marker, "__getattribute__": logged_getattribute}
+        for k in self.dfuns:
+            body[self.dnames[k]] = marker
+        for k in self.dattrs:
+            body[self.dnames[k]] = property(lambda self_: ("c17", self_))
         A_ = type("A_", (Base,), dict(body), backend_name=self.names[self.harness_names[0]])
         B_ = type("B_", (Base,), dict(body), backend_name=self.names[self.harness_names[1]])
         X_ = type("X_", (Other,), {}, backend_name=other_kw)
@@ -106,6 +125,10 @@ class Mgr:
                 obj = self.mgr.current_backend()
                 if getattr(obj, "backend_name", None) == self.names[k]:
                     obj.__dict__[fn] = (lambda o: (lambda *a, **kw: ("c17", o)))(obj)
+                    for j in self.dfuns:
+                        obj.__dict__[self.dnames[j]] = obj.__dict__[fn]
+                    for j in self.dattrs:
+                        obj.__dict__[self.dnames[j]] = ("c17", obj)
                     self.marked[id(obj)] = (k, obj)
             except Exception:
                 pass
@@ -125,6 +148,8 @@ class Mgr:
     def unmark(self):
         for k, obj in self.marked.values():
             obj.__dict__.pop(self.fn, None)
+            for nm in self.dnames:
+                obj.__dict__.pop(nm, None)
 
     def reset(self):
         """process-wide default and the calling (main) thread's own selection back to the default name"""
@@ -428,13 +453,13 @@ class Worker:
                 return k
 
 
-def drive(mode, history, main_worker, nthreads):
+def drive(mode, history, main_worker, nthreads, worker_cls=None):
     """run one history; thread 0 is the main thread.  If main_worker is None the main thread is the caller
     itself (passive observer, holds the import-time selection); otherwise it is an actor served by
     main_worker (the caller is then a helper thread).  Returns (obs0, [(outcome, obs)...])."""
     workers = {}
     for t in range(1, nthreads):
-        w = Worker(mode, t)
+        w = (worker_cls or Worker)(mode, t)
         w.start()
         workers[t] = w
     if main_worker is not None:
@@ -459,6 +484,8 @@ def drive(mode, history, main_worker, nthreads):
                 workers[t].q.put(("full",))      # no answer: the next reply of that thread carries the sweep
             if kind in ("set", "enter"):
                 res = workers[t].call((kind, op[2], op[3], op[4]))
+            elif worker_cls is not None:
+                res = workers[t].call(("exit", op[3], op[2]))
             else:
                 res = workers[t].call(("exit", op[3]))
             if isinstance(res, tuple) and res and res[0] == "harness-error":
@@ -1144,15 +1171,725 @@ def predicates(mode, nthreads, history, result):
     return fails
 
 
+# ----------------------------------------------------------------------------- dispatch routes (Model/BackendDispatch.v)
+# History over the alphabet of the dispatch model, ONE manager m:
+#   ("set"|"enter", t, m, sel, local) | ("exit", t, m, exceptional) | ("static", t, m) | ("dynamic", t, m)
+#   | ("capture", t, m, route, name) | ("callcap", t, m, k) | ("call", t, m, route, name)
+# route 0 = attribute of the manager MODULE, 1 = import-time binding / module __getattr__, 2 = attribute of the CLASS.
+# Thread 0 is the main thread (holds the import-time selection; it only captures and calls), threads 1..n-2 are actors
+# with command queues, thread n-1 is NOT a standing thread: each of its operations is executed by a thread STARTED AT
+# THAT MOMENT by whoever acted last (inside whatever contexts that thread has open) - it never selects anything.
+# Contexts are entered / left through the context-manager protocol (cm.__enter__ / cm.__exit__), so that contexts of the
+# two managers opened by one thread need not be left innermost-first (ManualWorker, mode 7).
+ROUTES = ["manager module", "import-time binding / module __getattr__", "manager class"]
+
+
+def manual_exit(cm, exn):
+    """leave a context through the protocol the `with` statement uses; outcome as the `with` statement would show it"""
+    if not exn:
+        try:
+            cm.__exit__(None, None, None)
+            return "done"
+        except Exception:  # noqa
+            return "exitfailed"
+    try:
+        raise Boom()
+    except Boom as e:
+        try:
+            swallowed = cm.__exit__(Boom, e, e.__traceback__)
+        except Exception:  # noqa
+            return "exitfailed"
+        return "swallowed" if swallowed else "reraised"
+
+
+def d_value(M, route, n):
+    nm = M.dnames[n]
+    if route == 0:
+        return getattr(M.mgr, nm)
+    if route == 2:
+        return getattr(M.cls, nm)
+    if M.tenalg and n not in top_names(M):
+        return getattr(M.mgr, nm)
+    return getattr(M.top_obj, nm)
+
+
+def d_use(M, v):
+    """call a function reference / look at an attribute value: ('ran'|'val', token) | ('err',)"""
+    import numpy as np
+    if isinstance(v, tuple) and len(v) == 2 and v[0] == "c17":
+        return ("val", M.token(v[1]))
+    if callable(v) and not isinstance(v, type):
+        r = v(*M.args) if getattr(v, "__name__", "") in (M.fn,) else v(*M.args)
+        if isinstance(r, tuple) and len(r) == 2 and r[0] == "c17":
+            return ("ran", M.token(r[1]))
+        return ("ran", ("?", "unmarked result " + repr(r)[:40]))
+    if v is np.int64 or v is np.complex64:
+        return ("val", ("n", 0))          # the stock numpy backend's own value (bound before the harness marked the instance)
+    return ("val", ("?", repr(v)[:40]))
+
+
+def d_eval(M, op, caps):
+    """capture / callcap / call, executed in the calling thread"""
+    try:
+        if op[0] == "capture":
+            try:
+                caps.append(d_value(M, op[3], op[4]))
+            except AttributeError:
+                caps.append(AttributeError)
+            return ("none",)
+        if op[0] == "callcap":
+            v = caps[op[3]]
+            if v is AttributeError:
+                return ("err",)
+            return d_use(M, v)
+        try:
+            v = d_value(M, op[3], op[4])
+        except AttributeError:
+            return ("err",)
+        return d_use(M, v)
+    except Exception as e:  # noqa
+        return ("ran", ("?", "raised " + repr(e)[:60]))
+
+
+def lib_probe(M):
+    """LIBRARY code reaching the backend through its own aliases (`from . import backend as tl`, `from .tenalg import
+    multi_mode_dot` captured at import, a tenalg implementation calling backend functions): executed in the calling
+    thread while its current backend is a harness instance, every backend object asked for an implementation must be
+    that instance.  Returns the offending accesses."""
+    import numpy as np
+    import tensorly as tl
+    cb = M.mgr.current_backend()
+    if type(cb) not in M.classes:
+        return []
+    if not M.tenalg:
+        calls = [("tensorly.base.unfold", lambda: tl.base.unfold(np.zeros((2, 3)), 1)),
+                 ("tensorly.base.fold", lambda: tl.base.fold(np.zeros((3, 2)), 1, (2, 3))),
+                 ("tensorly.tenalg.mode_dot", lambda: tl.tenalg.mode_dot(np.zeros((2, 3)), np.zeros((4, 3)), 1)),
+                 ("tensorly.cp_tensor.cp_to_tensor", lambda: tl.cp_tensor.cp_to_tensor((None, [np.zeros((2, 2)), np.zeros((3, 2))])))]
+    else:
+        calls = [("tensorly.tucker_tensor.tucker_to_tensor",
+                  lambda: tl.tucker_tensor.tucker_to_tensor((np.zeros((2, 2)), [np.zeros((3, 2)), np.zeros((3, 2))]))),
+                 ("tensorly.cp_tensor.cp_to_unfolded", lambda: tl.cp_tensor.cp_to_unfolded((None, [np.zeros((2, 2)), np.zeros((3, 2))]), 0))]
+    wrong = []
+    for (what, f) in calls:
+        _ACCESS.log = log = []
+        try:
+            f()
+        except Exception:  # noqa
+            pass
+        finally:
+            _ACCESS.log = None
+        wrong += [(what, repr(o), n) for (o, n) in log if o is not cb]
+        if not any(o is cb for (o, n) in log):
+            wrong.append((what, "no implementation was fetched from the current backend", repr(cb)))
+    return wrong[:6]
+
+
+class ManualWorker(Worker):
+    """like Worker, with contexts driven through the context-manager protocol: a thread may leave its context of one
+    manager while a context of the other manager, opened later, is still live"""
+
+    def body(self, depth):
+        stacks = {0: [], 1: []}
+        caps = self.caps if hasattr(self, "caps") else None
+        while True:
+            cmd = self.q.get()
+            k = cmd[0]
+            if k == "obs":
+                self.r.put(observe_mode(self.mode))
+            elif k == "full":
+                self.full = True
+            elif k == "set":
+                M = Mgr.get(cmd[1])
+                try:
+                    M.api(self.tid).set_backend(M.sel_obj(cmd[2]), local_threadsafe=cmd[3])
+                    self.reply("done")
+                except Exception:  # noqa
+                    self.reply("rejected")
+            elif k == "enter":
+                M = Mgr.get(cmd[1])
+                try:
+                    cm = M.api(self.tid).backend_context(M.sel_obj(cmd[2]), local_threadsafe=cmd[3])
+                    cm.__enter__()
+                    stacks[cmd[1]].append(cm)
+                    self.reply("done")
+                except Exception:  # noqa
+                    self.reply("rejected")
+            elif k == "exit":
+                m = cmd[2] if len(cmd) > 2 else self.mode
+                if not stacks[m]:
+                    self.reply("noctx")
+                else:
+                    self.reply(manual_exit(stacks[m].pop(), cmd[1]))
+            elif k == "d":                               # an operation of the dispatch alphabet, outcome only
+                self.r.put(self.d_op(cmd[1], stacks))
+            elif k == "spawn":                           # the operation is executed by a thread started right here
+                box = []
+                th = threading.Thread(target=lambda: box.append(d_eval(Mgr.get(cmd[1][2]), cmd[1], self.caps)), daemon=True)
+                th.start()
+                th.join(timeout=TIMEOUT)
+                self.r.put(box[0] if box else ("ran", ("?", "spawned thread did not answer")))
+            elif k in ("stop", "quit"):
+                for m in (0, 1):                         # unwind, innermost first
+                    while stacks[m]:
+                        try:
+                            stacks[m].pop().__exit__(None, None, None)
+                        except Exception:  # noqa
+                            pass
+                return k
+
+    def d_op(self, op, stacks):
+        M = Mgr.get(op[2])
+        kind = op[0]
+        try:
+            if kind == "set":
+                try:
+                    M.api(self.tid).set_backend(M.sel_obj(op[3]), local_threadsafe=op[4])
+                    return ("sel", "done")
+                except Exception:  # noqa
+                    return ("sel", "rejected")
+            if kind == "enter":
+                try:
+                    cm = M.api(self.tid).backend_context(M.sel_obj(op[3]), local_threadsafe=op[4])
+                    cm.__enter__()
+                except Exception:  # noqa
+                    return ("sel", "rejected")
+                stacks[op[2]].append(cm)
+                return ("sel", "done")
+            if kind == "exit":
+                if not stacks[op[2]]:
+                    return ("sel", "noctx")
+                return ("sel", manual_exit(stacks[op[2]].pop(), op[3]))
+            if kind == "libprobe":
+                return ("probe", lib_probe(M))
+            if kind == "static":
+                M.mgr.use_static_dispatch()
+                return ("none",)
+            if kind == "dynamic":
+                M.mgr.use_dynamic_dispatch()
+                return ("none",)
+            return d_eval(M, op, self.caps)
+        except Exception as e:  # noqa
+            return ("ran", ("?", "harness: " + repr(e)[:60]))
+
+
+def drive_dispatch(m, history, nthreads):
+    """returns the outcome of every operation; must be called from the main thread of its process"""
+    M = Mgr.get(m)
+    caps = []
+    workers = {}
+    for t in range(1, nthreads - 1):
+        w = ManualWorker(m, t)
+        w.caps = caps
+        w.start()
+        workers[t] = w
+    fresh = nthreads - 1
+    last = None
+    outs = []
+    try:
+        for op in history:
+            t = op[1]
+            if t == fresh:
+                if last is None or last == 0:
+                    box = []
+                    th = threading.Thread(target=lambda: box.append(d_eval(M, op, caps)), daemon=True)
+                    th.start()
+                    th.join(timeout=TIMEOUT)
+                    res = box[0] if box else ("ran", ("?", "spawned thread did not answer"))
+                else:
+                    res = workers[last].call(("spawn", op))
+            elif t == 0:
+                res = d_eval(M, op, caps)
+                last = 0
+            else:
+                res = workers[t].call(("d", op))
+                last = t
+            if isinstance(res, tuple) and res and res[0] == "harness-error":
+                raise HarnessStuck(str(res))
+            outs.append(res)
+        probes = []
+        if not any(op[0] == "static" for op in history):
+            for t, w in workers.items():
+                r = w.call(("d", ("libprobe", t, m)))
+                if isinstance(r, tuple) and r and r[0] == "probe" and r[1]:
+                    probes.append((t, r[1]))
+        drive_dispatch.probes = probes
+        return outs
+    finally:
+        for w in workers.values():
+            w.q.put(("stop",))
+        for w in workers.values():
+            if w.thread is not None:
+                w.thread.join(timeout=TIMEOUT)
+        try:
+            M.mgr.use_dynamic_dispatch()
+        except Exception:  # noqa
+            pass
+
+
+def random_dhistory(rng, m, maxlen):
+    M = Mgr.get(m)
+    nthreads = 4
+    fresh = nthreads - 1
+    valid = [("o", k) for k in range(len(M.pool))] + [("n", k) for k in M.names if M.sel_valid(("n", k))]
+    bad = [("n", k) for k in M.names if not M.sel_valid(("n", k))] + [("f", 0)]
+    depth = {1: 0, 2: 0}
+    ncaps = 0
+    h = []
+    p_sel = rng.choice([0.25, 0.4])
+    p_static = rng.choice([0.0, 0.04, 0.08])
+    for _ in range(rng.randint(2, maxlen)):
+        r = rng.random()
+        if r < p_sel:
+            t = rng.choice([1, 2])
+            if depth[t] and rng.random() < 0.35:
+                depth[t] -= 1
+                h.append(("exit", t, m, rng.random() < 0.4))
+                continue
+            s = rng.choice(bad) if rng.random() < 0.1 else rng.choice(valid)
+            kind = rng.choice(["set", "enter"])
+            if kind == "enter" and M.sel_valid(s):
+                depth[t] += 1
+            h.append((kind, t, m, s, rng.random() < 0.5))
+        elif r < p_sel + p_static:
+            h.append(("static", rng.choice([1, 2]), m))
+        elif r < p_sel + 2 * p_static:
+            h.append(("dynamic", rng.choice([1, 2]), m))
+        else:
+            t = rng.choice([0, 1, 2, fresh, fresh])
+            r2 = rng.random()
+            n = rng.randrange(len(M.dnames))
+            route = rng.choice([0, 0, 1, 1, 2])
+            if r2 < 0.2:
+                h.append(("capture", t, m, route, n))
+                ncaps += 1
+            elif r2 < 0.5 and ncaps:
+                h.append(("callcap", t, m, rng.randrange(ncaps)))
+            else:
+                h.append(("call", t, m, route, n))
+    return tuple(h)
+
+
+def systematic_dhistories(m):
+    """every (route, name) captured by thread 1 before a switch of every flavour by thread 2 (set / context, local /
+    global, then left), then called by every thread (incl. one started inside the context) through every route"""
+    M = Mgr.get(m)
+    fresh = 3
+    out = []
+    for kind in ("set", "enter"):
+        for local in (False, True):
+            for static in (False, True):
+                h = [("capture", 1, m, r, n) for r in (0, 1, 2) for n in range(len(M.dnames))]
+                h.append((kind, 2, m, ("o", 1), local))
+                if static:
+                    h.append(("static", 2, m))
+                for t in (0, 1, 2, fresh):
+                    h += [("callcap", t, m, k) for k in range(3 * len(M.dnames))]
+                    h += [("call", t, m, r, n) for r in (0, 1, 2) for n in range(len(M.dnames))]
+                if kind == "enter":
+                    h.append(("exit", 2, m, local))
+                    for t in (1, 2, fresh):
+                        h += [("call", t, m, r, n) for r in (0, 1) for n in range(len(M.dnames))]
+                out.append(tuple(h))
+    return out
+
+
+DOUT = {"sel": 0, "none": 1, "ran": 2, "val": 3, "err": 4}
+ROUTE_DIG = {0: 0, 1: 1, 2: 2}
+
+
+def tok_digit(d):
+    if d is None:
+        return 0
+    if d[0] == "n" and d[1] < 6:
+        return 2 + d[1]
+    if d[0] == "o" and d[1] < 50:
+        return 8 + d[1]
+    return 1
+
+
+def top_names(M):
+    """the modelled names the route 'top' finds bound at import: read off the import list in the SOURCE (what the module
+    dict holds at run time may have been put there later)"""
+    import tensorly as tl
+    if getattr(M, "_top_names", None) is None:
+        try:
+            bound = _imported_names(tl, "backend") if not M.tenalg else _imported_names(M.top_obj, "tenalg")
+        except Exception:  # noqa
+            bound = set(vars(M.top_obj))
+        M._top_names = [n for n, nm in enumerate(M.dnames) if nm in bound]
+    return M._top_names
+
+
+def encode_dispatch(m, nthreads, descr_class, history, outs):
+    M = Mgr.get(m)
+    ds = [6, m, nthreads, 1, int(descr_class), int(bool(M.dattrs) and 3 in top_names(M)), len(history) // 64, len(history) % 64]
+    for op, res in zip(history, outs):
+        k = op[0]
+        if k in ("set", "enter"):
+            ds += [0 if k == "set" else 1, op[1], SELKIND[op[3][0]], op[3][1], int(op[4])]
+        elif k == "exit":
+            ds += [2, op[1], int(op[3]), 0, 0]
+        elif k == "static":
+            ds += [3, op[1], 0, 0, 0]
+        elif k == "dynamic":
+            ds += [4, op[1], 0, 0, 0]
+        elif k == "capture":
+            ds += [5, op[1], op[3], op[4], 0]
+        elif k == "callcap":
+            ds += [6, op[1], op[3], 0, 0]
+        else:
+            ds += [7, op[1], op[3], op[4], 0]
+        if res[0] == "sel":
+            ds += [0, OUTCOME.get(res[1], 3)]
+        elif res[0] in ("ran", "val"):
+            ds += [DOUT[res[0]], tok_digit(res[1])]
+        else:
+            ds += [DOUT[res[0]], 0]
+    assert all(0 <= d < 64 for d in ds), ds
+    return ds
+
+
+def descr_class_ok(M):
+    """does a dispatched attribute answer when it is reached through the manager CLASS?  (the descriptor of the current
+    tree raises AttributeError: `if isinstance is None` tests the builtin)"""
+    if not M.dattrs:
+        return False
+    try:
+        getattr(M.cls, "backend_name")
+        return True
+    except AttributeError:
+        return False
+    except Exception:  # noqa
+        return True
+
+
+def predicates_dispatch(m, nthreads, descr_class, history, outs):
+    """transcriptions of C17_dispatch_follows_view / _captured_follows_view / _attribute_follows_view /
+    _top_attribute_import_time / C17_static_dispatch_frozen / C17_fresh_thread_view on the implementation's outcomes"""
+    M = Mgr.get(m)
+    fails = []
+    own = {t: None for t in range(nthreads)}
+    own[0] = ("n", 0)
+    default = ("n", 0)
+    stack = {t: [] for t in range(nthreads)}
+    frozen = None                 # backend the manager routes are frozen on (use_static_dispatch)
+    caps = []                     # ("w",) closure | ("m", tok) bound method | ("a", tok) attribute value | ("e",)
+    top = top_names(M)
+    top_fun = [n for n in M.dfuns if n in top]
+    top_attr = [n for n in M.dattrs if n in top]
+
+    def cur(t):
+        return own[t] if own[t] is not None else default
+
+    def shows(res, kind, tok):
+        if res[0] != kind:
+            return False
+        return res[1] == tok or (res[1] is None and tok[0] == "n" and tok[1] in M.stock)
+
+    def value(t, route, n):
+        isf = n in M.dfuns
+        if route == 1 and n in top_fun:
+            return ("w",)
+        if route == 1 and n in top_attr:
+            return ("a", ("n", 0))
+        if frozen is not None:
+            return ("m", frozen) if isf else ("a", frozen)
+        if isf:
+            return ("w",)
+        if route == 2 and not descr_class:
+            return ("e",)
+        return ("a", cur(t))
+
+    def expect(t, v):
+        return {"w": ("ran", cur(t)), "m": ("ran", v[1] if len(v) > 1 else None), "a": ("val", v[1] if len(v) > 1 else None), "e": ("err", None)}[v[0]]
+    for i, (op, res) in enumerate(zip(history, outs)):
+        k, t = op[0], op[1]
+        if k in ("set", "enter"):
+            valid = M.sel_valid(op[3])
+            if (res == ("sel", "done")) != valid:
+                fails.append(("C17_rejection", i, f"{k} of selector {op[3]} by thread {t} ended with {res}"))
+            if res == ("sel", "done"):
+                tok = ("n", op[3][1]) if op[3][0] == "n" else ("o", op[3][1])
+                if k == "enter":
+                    stack[t].append((cur(t), op[4]))
+                own[t] = tok
+                if not op[4]:
+                    default = tok
+        elif k == "exit":
+            if stack[t]:
+                old, loc = stack[t].pop()
+                if res != ("sel", "reraised" if op[3] else "done"):
+                    fails.append(("C17_exit_succeeds", i, f"leaving the context of thread {t} ended with {res}"))
+                own[t] = old
+                if not loc:
+                    default = old
+        elif k == "static":
+            frozen = cur(t)
+        elif k == "dynamic":
+            frozen = None
+        elif k == "capture":
+            caps.append(value(t, op[3], op[4]) + (op[4],))
+        else:
+            if k == "callcap":
+                v = caps[op[3]]
+                what = f"reference {op[3]} (captured {M.dnames[v[-1]]!r})"
+                pred = "C17_dispatch_captured_follows_view"
+                v = v[:-1]
+            else:
+                v = value(t, op[3], op[4])
+                what = f"{M.dnames[op[4]]!r} through the {ROUTES[op[3]]}"
+                isf = op[4] in M.dfuns
+                pred = ("C17_static_dispatch_frozen" if frozen is not None and v[0] != "w" else
+                        "C17_dispatch_follows_view" if isf else
+                        "C17_dispatch_top_attribute_import_time" if (op[3] == 1 and op[4] in top_attr) else
+                        "C17_dispatch_attribute_follows_view")
+            if t == nthreads - 1 and v[0] in ("w",):
+                pred = "C17_fresh_thread_view"
+            kind, tok = expect(t, v)
+            ok = (res[0] == "err") if kind == "err" else shows(res, kind, tok)
+            if not ok:
+                fails.append((pred, i, f"thread {t}{' (started at this moment)' if t == nthreads - 1 else ''} used {what}: expected "
+                              f"{kind} {tok if tok is not None else ''} (own selection {own[t]}, shared default {default}, "
+                              f"static dispatch frozen on {frozen}), observed {res}"))
+    return fails
+
+
+def dop_lit(op):
+    k = op[0]
+    if k in ("set", "enter", "exit"):
+        return "DSel " + op_lit(op).split(", ", 1)[1][:-1]
+    if k == "static":
+        return f"DStatic {op[1]}"
+    if k == "dynamic":
+        return f"DDynamic {op[1]}"
+    r = ["RMgr", "RTop", "RClass"]
+    if k == "capture":
+        return f"DCapture {op[1]} {r[op[3]]} {op[4]}"
+    if k == "callcap":
+        return f"DCallCap {op[1]} {op[3]}"
+    return f"DCall {op[1]} {r[op[3]]} {op[4]}"
+
+
+def dhist_to_json(h):
+    return [list(op[:3]) + ([list(op[3]), op[4]] if op[0] in ("set", "enter") else list(op[3:])) for op in h]
+
+
+def dhist_from_json(j):
+    out = []
+    for o in j:
+        if o[0] in ("set", "enter"):
+            out.append((o[0], int(o[1]), int(o[2]), (o[3][0], int(o[3][1])), bool(o[4])))
+        elif o[0] == "exit":
+            out.append((o[0], int(o[1]), int(o[2]), bool(o[3])))
+        else:
+            out.append(tuple([o[0]] + [int(x) for x in o[1:]]))
+    return tuple(out)
+
+
+def _dispatch_job(m, histories):
+    Ms = Mgr.both()
+    M = Ms[m]
+    dc = descr_class_ok(M)
+    out = []
+    for h in histories:
+        for X in Ms:
+            X.reset()
+        outs = drive_dispatch(m, h, 4)
+        fails = predicates_dispatch(m, 4, dc, h, outs)
+        for (t, wrong) in drive_dispatch.probes:
+            fails.append(("C17_dispatch_follows_view", len(h) - 1, f"library code (tensorly.base.unfold / tensorly.tenalg.mode_dot / tucker_to_tensor) called in "
+                          f"thread {t} after this history fetched implementations from objects other than the thread's current backend: {wrong}"))
+        hist = [f"{'tenalg' if m else 'backend'}.{op[0]}" + (f"/{ROUTES[op[3]].split(' ')[0]}" if op[0] in ("capture", "call") else "") + ":" + res[0]
+                for op, res in zip(h, outs)]
+        out.append((pack(encode_dispatch(m, 4, dc, h, outs)), fails[0] if fails else None, hist))
+    for X in Ms:
+        X.reset()
+    return out, None
+
+
+def nonlifo_history(rng, maxlen):
+    """both managers, three actor threads; an exit leaves the innermost context OF ITS MANAGER (contexts of the two
+    managers are interleaved arbitrarily)"""
+    threads = [1, 2, 3]
+    n = rng.randint(2, maxlen)
+    stack = {(t, m): 0 for t in threads for m in (0, 1)}
+    h = []
+    for _ in range(n):
+        t = rng.choice(threads)
+        open_m = [m for m in (0, 1) if stack[(t, m)]]
+        if open_m and rng.random() < 0.4:
+            m = rng.choice(open_m)
+            stack[(t, m)] -= 1
+            h.append(("exit", t, m, rng.random() < 0.4))
+            continue
+        m = rng.choice([0, 1])
+        M = Mgr.get(m)
+        r = rng.random()
+        if r < 0.12:
+            s = rng.choice([("n", 4), ("f", 0), ("f", 1)])
+        elif r < 0.5:
+            s = ("n", rng.choice([k for k in M.names if M.sel_valid(("n", k))]))
+        else:
+            s = ("o", rng.randrange(len(M.pool)))
+        l = rng.random() < 0.5
+        if rng.random() < 0.65:
+            h.append(("enter", t, m, s, l))
+            if M.sel_valid(s):
+                stack[(t, m)] += 1
+        else:
+            h.append(("set", t, m, s, l))
+    return tuple(h)
+
+
+def run_histories_manual(nthreads, histories):
+    """mode 2 (both managers observed by every thread after every step), contexts through the protocol"""
+    Ms = Mgr.both()
+    out = []
+    for h in histories:
+        for M in Ms:
+            M.reset()
+        out.append(drive(2, h, None, nthreads, ManualWorker))
+    for M in Ms:
+        M.reset()
+    return out
+
+
+# ----------------------------------------------------------------------------- the dispatch expressions, from the source (ast)
+# Model/BackendDispatch.v reads: the closure of dispatch_backend_method looks the backend up at CALL time with the
+# expression of current_backend(); the descriptor looks it up at ACCESS time; use_dynamic_dispatch installs the closure
+# for every name of _functions and the descriptor for every name of _attributes; tensorly/__init__.py binds a fixed list
+# of names.  Here these facts are re-derived from the CURRENT source and shipped to Corr/C17.v (leading digit 7), which
+# checks them against the model's parameters (look-ups on a family of states).  A shape the translator does not know
+# is a BROKEN TIE: reported in the evidence, never a verdict about the property.
+def _lookup_kind(expr, cur_kind):
+    """0 thread-local slot else shared default | 1 shared default only | 2 thread-local slot only"""
+    src = ast.unparse(expr).replace("'", '"').replace(" ", "")
+    for owner in ("cls", "instance", "self"):
+        if src == owner + "._THREAD_LOCAL_DATA.__dict__.get(\"backend\"," + owner + "._backend)":
+            return 0
+        if src == owner + ".current_backend()":
+            if cur_kind is None:
+                raise Unsupported("current_backend() inside current_backend")
+            return cur_kind
+        if src == owner + "._backend":
+            return 1
+        if src == owner + "._THREAD_LOCAL_DATA.backend":
+            return 2
+    raise Unsupported("look-up expression " + src[:70])
+
+
+def _single_return(fn):
+    body = [st for st in fn.body if not (isinstance(st, ast.Expr) and isinstance(st.value, ast.Constant))]
+    if len(body) == 1 and isinstance(body[0], ast.Return) and body[0].value is not None:
+        return body[0].value
+    raise Unsupported(fn.name + ": not a single return")
+
+
+def _binding_kind(manager_cls, listname):
+    """what use_dynamic_dispatch installs for the names of cls.<listname>: 0 staticmethod(closure) | 1 descriptor"""
+    fn = _fn_ast(manager_cls.use_dynamic_dispatch.__func__)
+    for st in fn.body:
+        if isinstance(st, ast.For) and _attr_chain(st.iter) == ["cls", listname]:
+            sets = [x.value for x in ast.walk(st) if isinstance(x, ast.Expr) and isinstance(x.value, ast.Call)
+                    and getattr(x.value.func, "id", None) == "setattr"]
+            if len(sets) != 1 or len(sets[0].args) != 3:
+                raise Unsupported("use_dynamic_dispatch: loop over " + listname)
+            v = ast.unparse(sets[0].args[2]).replace(" ", "")
+            if v.startswith("staticmethod(cls.dispatch_backend_method(name,"):
+                return 0
+            if v == "dynamically_dispatched_class_attribute(name)":
+                return 1
+            raise Unsupported("use_dynamic_dispatch installs " + v[:60])
+    raise Unsupported("use_dynamic_dispatch: no loop over cls." + listname)
+
+
+def _imported_names(module, frm):
+    tree = ast.parse(inspect.getsource(module))
+    out = set()
+    for st in tree.body:
+        if isinstance(st, ast.ImportFrom) and (st.module or "").split(".")[-1] == frm:
+            out |= {a.asname or a.name for a in st.names}
+    return out
+
+
+def dispatch_source_digits(Ms, dc):
+    import tensorly as tl
+    import tensorly.backend as B
+    bm = type(tl.backend)
+    cur_kind = _lookup_kind(_single_return(_fn_ast(bm.current_backend.__func__)), None)
+    g = _single_return(_fn_ast(bm.get_backend.__func__))
+    if not (isinstance(g, ast.Attribute) and g.attr == "backend_name"):
+        raise Unsupported("get_backend: " + ast.unparse(g)[:60])
+    get_kind = _lookup_kind(g.value, cur_kind)
+    # the closure: the look-up must sit INSIDE the inner function (evaluated on every call)
+    outer = _fn_ast(bm.dispatch_backend_method.__func__)
+    inner = [st for st in outer.body if isinstance(st, ast.FunctionDef)]
+    if len(inner) != 1:
+        raise Unsupported("dispatch_backend_method: inner function")
+    r = _single_return(inner[0])
+    ok = (isinstance(r, ast.Call) and isinstance(r.func, ast.Call) and getattr(r.func.func, "id", None) == "getattr"
+          and len(r.func.args) == 2 and isinstance(r.func.args[1], ast.Name) and r.func.args[1].id == "name")
+    if ok:
+        wrap_kind = _lookup_kind(r.func.args[0], cur_kind)
+    elif isinstance(r, ast.Call) and getattr(r.func, "id", None) == "method":
+        wrap_kind = 3                                            # calls the method captured when the closure was made
+    else:
+        raise Unsupported("closure returns " + ast.unparse(r)[:60])
+    # the descriptor
+    get = [st for st in ast.parse(textwrap.dedent(inspect.getsource(B.dynamically_dispatched_class_attribute))).body[0].body
+           if isinstance(st, ast.FunctionDef) and st.name == "__get__"]
+    if len(get) != 1:
+        raise Unsupported("descriptor __get__")
+    body = [st for st in get[0].body if not (isinstance(st, ast.Expr) and isinstance(st.value, ast.Constant))]
+    if len(body) == 1 and isinstance(body[0], ast.If) and len(body[0].body) == 1 and len(body[0].orelse) == 1:
+        test = ast.unparse(body[0].test).replace(" ", "")
+        cls_test = {"isinstanceisNone": 0, "instanceisNone": 1}.get(test)
+        if cls_test is None:
+            raise Unsupported("descriptor test " + test)
+
+        def branch(st):
+            v = st.value if isinstance(st, ast.Return) else None
+            if not (isinstance(v, ast.Call) and getattr(v.func, "id", None) == "getattr" and len(v.args) == 2
+                    and ast.unparse(v.args[1]).replace(" ", "") == "self.name"):
+                raise Unsupported("descriptor branch " + ast.unparse(st)[:60])
+            return _lookup_kind(v.args[0], cur_kind)
+        cls_kind, inst_kind = branch(body[0].body[0]), branch(body[0].orelse[0])
+    else:
+        raise Unsupported("descriptor __get__ shape")
+    ds = [7, wrap_kind, cur_kind, get_kind, inst_kind, cls_test, cls_kind, int(dc), int("int64" in _imported_names(tl, "backend"))]
+    from tensorly.tenalg import TenalgBackendManager
+    for cls in (bm, TenalgBackendManager):
+        ds += [_binding_kind(cls, "_functions"), _binding_kind(cls, "_attributes")]
+    mod_getattr = any(isinstance(st, ast.Assign) and getattr(st.targets[0], "id", None) == "__getattr__"
+                      and ast.unparse(st.value).replace(" ", "") == "backend.__getattribute__"
+                      for st in ast.parse(inspect.getsource(tl)).body)
+    if not mod_getattr:
+        raise Unsupported("tensorly/__init__.py: __getattr__ is not `backend.__getattribute__`")
+    ds.append(1)
+    for M in Ms:
+        bound = _imported_names(tl, "backend") if not M.tenalg else _imported_names(M.top_obj, "tenalg")
+        funs, attrs = set(M.cls._functions), set(M.cls._attributes)
+        for nm in M.dnames:
+            ds += [int(nm in funs), int(nm in attrs and nm not in funs), int(nm in bound)]
+    return ds
+
+
 # ----------------------------------------------------------------------------- pool jobs
 def _pool_job(job):
     """executed in a pool process (in its main thread): drives the histories and digests the results there:
     per history (case literal without id, first predicate failure | None, [operation:outcome ...]);
     plus, for the first history, a copy of its literal with ONE observation altered (sentinel) and a sample"""
     mode, main_actor, nthreads, histories = job
-    if mode >= 3:
+    if mode in (8, 9):
+        return _dispatch_job(mode - 8, histories)
+    if mode >= 3 and mode != 7:
         return _micro_job(mode - 3, histories)
-    results = run_histories(mode, main_actor, nthreads, histories)
+    if mode == 7:                      # both managers, contexts left in any order across the managers
+        results = run_histories_manual(nthreads, histories)
+        mode = 2
+    else:
+        results = run_histories(mode, main_actor, nthreads, histories)
     out = []
     for h, r in zip(histories, results):
         ds = encode(mode, True, nthreads, h, r)
@@ -1247,6 +1984,14 @@ def make_groups(tier, rng):
         groups.append((3 + m, False, 4, [random_scenario(rng, m) for _ in range(300 if quick else 4000)], "concurrent-pair-schedules"))
         groups.append((3 + m, False, 4, systematic_scenarios(m), "concurrent-pair-bytecode-sweep"))
         groups.append((3 + m, False, 5, [random_scenario3(rng, m) for _ in range(150 if quick else 2000)], "concurrent-triple-schedules"))
+    # both managers, contexts entered / left through the context-manager protocol: a context of one manager may be
+    # left while a later context of the other manager is still live (C17_restore_mixed)
+    groups.append((7, False, 4, [nonlifo_history(rng, 10 if quick else 24) for _ in range(400 if quick else 3000)], "mixed-nonlifo-contexts"))
+    # the dispatch layer: every route to a dispatched name, references captured before a switch and called by other
+    # threads, threads started inside contexts, use_static_dispatch / use_dynamic_dispatch (Model/BackendDispatch.v)
+    for m in (0, 1):
+        groups.append((8 + m, False, 4, systematic_dhistories(m) + [random_dhistory(rng, m, 14 if quick else 40) for _ in range(500 if quick else 4000)],
+                       "dispatch-routes"))
     return groups
 
 
@@ -1285,7 +2030,10 @@ def scenario_from_json(j):
 
 
 ENTRY = {0: "tensorly.set_backend/backend_context", 1: "tensorly.tenalg.set_backend/backend_context",
-         2: "tensorly.set_backend/backend_context + tensorly.tenalg.set_backend/backend_context"}
+         2: "tensorly.set_backend/backend_context + tensorly.tenalg.set_backend/backend_context",
+         7: "tensorly.set_backend/backend_context + tensorly.tenalg.set_backend/backend_context",
+         8: "tensorly.<dispatched name> / tensorly.backend.<dispatched name> / use_static_dispatch",
+         9: "tensorly.tenalg.<dispatched name> / use_static_dispatch"}
 
 
 def run(chk):
@@ -1313,12 +2061,15 @@ def run(chk):
         meta.append(None)
     for g, res in zip(groups, results):
         mode, main_actor, nthreads, hs, tag = g
-        gname = ["backend:", "tenalg:", "both:", "backend:", "tenalg:"][mode] + tag
+        gname = {0: "backend:", 1: "tenalg:", 2: "both:", 3: "backend:", 4: "tenalg:", 7: "both:", 8: "backend:", 9: "tenalg:"}[mode] + tag
         for h, (lit, fail, outs) in zip(hs, res):
             cid = len(cases)
             cases.append(f"({cid}, {lit})")
             meta.append((mode, main_actor, nthreads, h, tag))
-            if mode >= 3:
+            if mode in (8, 9):
+                ops = h
+                nontrivial = any(op[0] in ("set", "enter") for op in h) and any(op[0] in ("callcap", "static") for op in h)
+            elif mode in (3, 4):
                 ops = list(h[0]) + [h[1], h[2]] + list(h[3])
                 nontrivial = any(op[0] != "set" for op in (h[1], h[2]))
             else:
@@ -1335,7 +2086,11 @@ def run(chk):
     found.sort()
     for (_, cid, (pred, i, msg)) in found[:60]:
         mode, main_actor, nthreads, h, tag = meta[cid]
-        if mode >= 3:
+        if mode in (8, 9):
+            chk.finding(ENTRY[mode], {"mode": mode, "history": dhist_to_json(h[:i + 1])},
+                        f"step {i} ({dop_lit(h[i])}): {msg}", pred)
+            continue
+        if mode in (3, 4):
             chk.finding(ENTRY[mode - 3], {"mode": mode, "scenario": scenario_to_json(h)},
                         f"two concurrent calls under a line-granular schedule, follow-up step {i}: {msg}", pred)
             continue
@@ -1365,6 +2120,32 @@ def run(chk):
             chk.hist("group", ["backend:", "tenalg:"][m] + "source-programs")
     except Exception as e:  # noqa
         chk.notes.append(f"source programs: extraction failed, skipped ({e!r})")
+    # the dispatch expressions (closure, descriptor, current_backend, get_backend, use_dynamic_dispatch, import list)
+    dsrc_id = None
+    try:
+        Ms = Mgr.both()
+        dc = descr_class_ok(Ms[0])
+        chk.cov["dispatched_attribute_through_class"] = "answers" if dc else "raises AttributeError"
+        if not dc:
+            chk.notes.append("a dispatched ATTRIBUTE reached through the manager CLASS (BackendManager.int64, ...) raises AttributeError: "
+                             "dynamically_dispatched_class_attribute.__get__ tests `isinstance is None` (the builtin) instead of `instance is None`. "
+                             "Modelled (drules.descr_class = false, theorem C17_dispatch_attribute_follows_view), not judged: C17 speaks of dispatched "
+                             "functions (see build/fix_candidates/C17_descriptor_class_access.md)")
+        try:
+            dsd = dispatch_source_digits(Ms, dc)
+            dsrc_id = len(cases)
+            cases.append(f"({len(cases)}, {pack(dsd)})")
+            meta.append(None)
+            chk.count(key=("dispatch-source",), nontrivial=True)
+            chk.hist("group", "both:dispatch-source")
+            chk.cov["dispatch_source_tie"] = "extracted"
+        except Unsupported as e:
+            chk.cov["dispatch_source_tie"] = f"BROKEN TIE: {e}"
+            chk.notes.append(f"dispatch expressions: BROKEN TIE - a source shape the translator does not know ({e}); the dispatch model is then tied "
+                             "to the code by the executed dispatch histories only")
+    except Exception as e:  # noqa
+        chk.cov["dispatch_source_tie"] = f"BROKEN TIE: extraction failed ({e!r})"
+        chk.notes.append(f"dispatch expressions: BROKEN TIE - extraction failed ({e!r})")
     t1 = time.time()
     failing, n_eval, broken = C.run_case_shards("C17", HEADER, "case", cases, shard=2500, timeout=900)
     # a shard killed by the shell timeout (overloaded machine) is "not evaluated", never an alarm: its cases are
@@ -1405,11 +2186,27 @@ def run(chk):
                        "outcome compared with the set of outcomes of all sequential orders of their blocks (conclusion of C17_micro_atomic). After EVERY operation EVERY thread reports get_backend() and the identity "
                        "of the object executing a dispatched call. Source programs: the acts of set_backend / backend_context / current_backend are extracted from the "
                        "current source (ast) for both manager classes and checked in Coq (effect-point discipline, block equivalence with the model's programs "
-                       "on 18 states each). Non-trivial = at least two threads act and a context is entered; distinct key = (mode, "
+                       "on 18 states each). DISPATCH (Model/BackendDispatch.v), per manager: 8 systematic histories (every (route, name) captured by thread 1 before a "
+                       "switch of thread 2 - set / context, local / global, with and without use_static_dispatch - then called by every thread incl. one STARTED "
+                       "inside the context, through every route) + 500 (thorough 4000) random histories to length 14 (40) over {selections, use_static_dispatch, "
+                       "use_dynamic_dispatch, capture, call captured, call} x routes {manager module, import-time binding / module __getattr__ (tensorly.<name>; for "
+                       "tenalg: the name a library module imported), manager class} x names {2 functions, 2 attributes (backend only)}; every outcome (executing "
+                       "object / object whose attribute was served / AttributeError) compared with the model; after each history without use_static_dispatch every actor "
+                       "thread holding a harness backend runs LIBRARY code (tensorly.base.unfold, tenalg.mode_dot, tucker_to_tensor) under attribute-access logging. "
+                       "400 (thorough 3000) random histories over BOTH managers with contexts driven through cm.__enter__ / cm.__exit__, left in any order across "
+                       "the managers. Dispatch source: the look-up expressions of the dispatch closure, current_backend, get_backend, the attribute descriptor, what "
+                       "use_dynamic_dispatch installs and the names bound at import are extracted from the current source (ast) and checked in Coq against the model's "
+                       "parameters. Non-trivial = at least two threads act and a context is entered; distinct key = (mode, "
                        "main-thread role, history). At most 40 disagreeing cases per shard of 2500 are listed")
     for b in broken:
         chk.broken.append({"what": "correspondence corr:C17 shard not evaluated", "detail": b})
     for i in sorted(failing):
+        if i == dsrc_id:
+            chk.disagreement("corr:C17 dispatch source (the look-up expressions of the dispatch closure / descriptor / current_backend / get_backend, what "
+                             "use_dynamic_dispatch installs, or the names bound at import differ from Model/BackendDispatch.v's parameters)",
+                             {"digits [closure, current_backend, get_backend, descriptor(instance), class test, descriptor(class), probed, "
+                              "installs x4, module __getattr__, (function?, attribute?, bound at import?) per modelled name]": dsd[1:]})
+            continue
         if i in src_ids:
             m, progs = src_ids[i]
             chk.disagreement("corr:C17 source programs (acts extracted from the source of set_backend / backend_context break the effect-point "
@@ -1417,7 +2214,12 @@ def run(chk):
                              {"manager": "tensorly.tenalg" if m else "tensorly.backend", "programs [set, enter, exit, exit-by-exception] x [global, local]": progs})
             continue
         mode, main_actor, nthreads, h, tag = meta[i]
-        if mode >= 3:
+        if mode in (8, 9):
+            chk.disagreement("corr:C17 dispatch (Model/BackendDispatch.v vs the routes to a dispatched name: manager module, import-time binding / "
+                             "module __getattr__, manager class, captured references, use_static_dispatch / use_dynamic_dispatch)",
+                             {"mode": mode, "history": dhist_to_json(h)})
+            continue
+        if mode in (3, 4):
             chk.disagreement("corr:C17 micro (outcome of two concurrent calls under a line-granular schedule is not that of any sequential order of their blocks)",
                              {"mode": mode, "scenario": scenario_to_json(h)})
             continue
@@ -1425,10 +2227,15 @@ def run(chk):
                          {"mode": mode, "main_actor": main_actor, "nthreads": nthreads, "history": hist_to_json(h)})
     chk.assumptions = ["operations are atomic: the driver issues one operation at a time and waits for it (the property quantifies over interleavings of whole operations)",
                        "the instance load_backend creates for a name is identified with the name (the identity of cached instances is not part of the property)",
-                       "contexts of the two managers opened by one thread are left innermost-first (they are `with` blocks on one Python stack)",
+                       "contexts of the two managers opened by one thread are left innermost-first (they are `with` blocks on one Python stack), except in the "
+                       "group mixed-nonlifo-contexts, which drives cm.__enter__ / cm.__exit__ directly",
                        "CPython threads; threading.local storage of a fresh thread is empty"]
     chk.trusted = ["marker methods/attributes on harness backend subclasses and on the stock instances reveal the executing object of a dispatched call",
-                   "the harness appends its two backend names to the manager's available_backend_names so that they can be selected by name"]
+                   "the harness appends its two backend names to the manager's available_backend_names so that they can be selected by name",
+                   "dispatch routes: marker methods (context, trace / outer, inner) and marker properties (complex64, int64) on the harness backend classes and "
+                   "in the instance dict of the stock instances identify the object a call ran on / an attribute came from; tensorly.int64 (bound at import, "
+                   "before the marking) is recognised as the stock numpy backend's value",
+                   "use_static_dispatch / use_dynamic_dispatch are driven inside the fork-pool processes only; use_dynamic_dispatch is called after every dispatch history"]
     return chk.finish()
 
 
@@ -1437,6 +2244,34 @@ def replay(payload):
         print("replay file names a broken theorem/correspondence, not an input:", payload.get("theorem_or_correspondence"))
         return 1
     inp = payload["inputs"]
+    if int(inp["mode"]) in (8, 9):
+        m = int(inp["mode"]) - 8
+        h = dhist_from_json(inp["history"])
+        Ms = Mgr.both()
+        for M in Ms:
+            M.reset()
+        outs = drive_dispatch(m, h, 4)
+        fails = predicates_dispatch(m, 4, descr_class_ok(Ms[m]), h, outs)
+        for (t, wrong) in drive_dispatch.probes:
+            fails.append(("C17_dispatch_follows_view", len(h) - 1, f"library code in thread {t} fetched implementations from {wrong}"))
+        for M in Ms:
+            M.reset()
+            M.unmark()
+        for f in fails[:5]:
+            print("replay:", f)
+        if not fails:
+            print("replay: all C17 dispatch predicates hold on", [dop_lit(o) for o in h])
+        return 1 if fails else 0
+    if int(inp["mode"]) == 7:
+        h = hist_from_json(inp["history"])
+        Ms = Mgr.both()
+        r = run_histories_manual(int(inp["nthreads"]), [h])[0]
+        for M in Ms:
+            M.unmark()
+        fails = predicates(2, int(inp["nthreads"]), h, r)
+        for f in fails[:5]:
+            print("replay:", f)
+        return 1 if fails else 0
     if int(inp["mode"]) >= 3:
         m = int(inp["mode"]) - 3
         sc = scenario_from_json(inp["scenario"])
